@@ -95,7 +95,8 @@ def summary(v, has_pressure, has_fpol, tokamak=True, orthogonal=True):
             allowed = ~core
             kind = "core"
         elif base in ("ShiftAngle", "total_poloidal_distance") and a.ndim == 1:
-            allowed = np.arange(a.shape[0]) >= min(int(v["ixseps1"]), int(v["ixseps2"]))
+            # defined exactly on the radial indices that have closed flux surfaces (none at all for an isolated X-point)
+            allowed = ~core.any(axis=1)[: a.shape[0]] if a.shape[0] <= core.shape[0] else np.zeros(a.shape, bool)
             kind = "core"
         else:
             allowed = np.zeros(a.shape, bool)
@@ -345,6 +346,38 @@ def model_correspondence(res, grids, tier):
             res.traces += 1
 
 
+def torpex_example(res):
+    """examples/torpex-xpoint (needs sympy, which /venv lacks: installed offline from the wheelhouse into /verif/.pydeps)"""
+    import gridlab
+
+    deps = os.path.join(vlib.VERIF, ".pydeps")
+    if not os.path.exists(os.path.join(deps, "sympy")):
+        p = subprocess.run([sys.executable, "-m", "pip", "install", "--no-index", "--find-links", "/opt/veriftools/wheels", "--target", deps, "sympy", "mpmath"],
+                           stdout=subprocess.PIPE, stderr=subprocess.STDOUT)
+        if p.returncode != 0:
+            res.extra["torpex"] = "sympy could not be installed offline: " + p.stdout.decode()[-200:]
+            return
+    src = os.path.join(vlib.REPO, "examples", "torpex-xpoint")
+    for y in ("torpex-coils.yaml", "torpex-coils-nonorth.yaml"):
+        wd = os.path.join(vlib.WORK, "c12_examples", vlib.source_hash(), y.replace(".yaml", ""))
+        out = os.path.join(wd, "grid.nc")
+        res.case(key=("shipped-example", y), nontrivial=True, sample={"example": "examples/torpex-xpoint " + y})
+        if not os.path.exists(out):
+            os.makedirs(wd, exist_ok=True)
+            open(os.path.join(wd, y), "w").write(open(os.path.join(src, y)).read())
+            p = subprocess.run([sys.executable, "-c", "import sys; sys.argv=['x', %r]; import hypnotoad.scripts.hypnotoad_torpex as m; m.main()" % y], cwd=wd,
+                               env=dict(os.environ, PYTHONPATH=vlib.REPO + ":" + deps, MPLBACKEND="Agg"), stdout=subprocess.PIPE, stderr=subprocess.STDOUT, timeout=2400)
+            made = [f for f in os.listdir(wd) if f.endswith(".nc")]
+            if p.returncode != 0 or not made:
+                res.violation("shipped-example-fails:" + y, "examples/torpex-xpoint/%s does not generate: %s" % (y, p.stdout.decode()[-300:]), {"example": y})
+                continue
+            os.replace(os.path.join(wd, made[0]), out)
+        v = gridlab.read_nc(out)[0]
+        for wid, text in verdict(summary(v, False, True, tokamak=False, orthogonal="nonorth" not in y), False):
+            res.violation(wid, "shipped example %s: %s" % (y, text), {"example": y})
+        res.traces += 1
+
+
 def run(res, tier):
     import gridlab
 
@@ -382,6 +415,8 @@ def run(res, tier):
     option_rejection(res)
     cli_rejection(res)
     shipped_examples(res, tier)
+    if tier == "thorough":
+        torpex_example(res)
 
 
 def replay(rep):
